@@ -397,7 +397,7 @@ def rule_column7(P) -> RuleResult:
                     continue
                 if not is_slice:
                     want = T('call', (show(VARS.args[key]), (COL,), ()))
-                    if p.outcome != 'return' or p.value != want:
+                    if p.outcome != 'return' or p.value not in (want, T('attr', (COL, FIELDS[key]))):
                         problems.append(f'for index {key} it gives `{show(p.value)[:80]}`, not field {FIELDS[key]}')
                 else:
                     sel = T('item', (VARS, KEY))
